@@ -13,12 +13,17 @@
 //                path) == T^(d*4^i*2^67); the Initializer is run with 4 seeds x the 64-bit offset
 //                lattice {0, 5, 2^32-1, 2^32, 2^32+5, 2^63, 2^64-1} == T^offset T^(n*2^67) s0(seed),
 //                Weyl == w0 + offset*362437 mod 2^32, state never all-zero
+//   subseq:n=0   the same seed x offset lattice with Initializer.subsequence == 0 (the first
+//                stream keeps its offset): == T^offset s0(seed)
 //   count:*      discard(n) for composite 64-bit n (pairs of digits, all-ones, carries) == T^n
 //   weyl:*       Weyl counter after discard(n) == n*362437 mod 2^32
 //   seq:*        discard(n) == n calls of operator() for all n <= N on dense states
 //   period       T has multiplicative order 2^160-1 (factorisation re-verified) => one cycle
 //   reseed:*     reseed_rng(event, slots): slot state == T^((event*slots+slot)*2^67) s0(seed),
-//                indices pairwise distinct, segments inside one period
+//                indices pairwise distinct, segments inside one period; events 0..E, 1000003,
+//                2^32-1, 2^40+7, 2^60+3 and the last event whose slots all fit below 2^64
+//                (floor(2^64/slots)-1, index computed in 128 bits); events 0, 2^32-1, 2^60+3
+//                again with StreamId 1 and 7 (the stream must not enter the index)
 //   dbl:* flt:*  GenerateCanonical32<double/float> in [0,1): float over ALL 2^32 words,
 //                double over all upper words x extreme lower words (thorough) / strided (quick)
 //   canon:engine:W  the engine-specific path: the REAL engine is forced (Weyl word solved, x.w[1]
@@ -26,6 +31,7 @@
 //                generate_canonical<float/double>(engine), generate_canonical(engine) and the
 //                GenerateCanonical<XorwowRngEngine,T> functor must return the documented function
 //                of the words, inside [0,1), consuming exactly 1 / 2 words
+#include <algorithm>
 #include <array>
 #include <cmath>
 #include <cstdint>
@@ -391,6 +397,53 @@ int main(int argc, char** argv)
                 R.violation("lin:singular", "lin:rank", fmt("rank(T)=%d", rank));
         }
 
+        // public path: Initializer{seed, subsequence, offset}; the 64-bit offset runs over a
+        // lattice that includes values >= 2^32 (a truncation of the offset on its way into
+        // discard() leaves the Weyl word right and the xorshift state wrong).  ref == nullptr
+        // means subsequence 0 (base state == s0(seed)): the offset of the FIRST stream must not
+        // be dropped by an "if (subsequence > 0)" shortcut around both skips.
+        auto init_lattice = [&](std::string const& cid, unsigned long long n, M160 const* ref,
+                                std::string const& sig_small) {
+            static unsigned long long const offsets[]
+                = {0ull, 5ull, 0xffffffffull, 1ull << 32, (1ull << 32) + 5, 1ull << 63, ~0ull};
+            for (unsigned seed : {0u, 1u, 12345u, 0xffffffffu})
+            {
+                XorwowRngInitializer init0;
+                init0.seed = {seed};
+                real.engine() = init0;
+                V160 s0 = real.get();
+                uint32_t w0 = real.st().weylstate;
+                if (s0.zero())
+                    R.violation("init:zero-state", cid,
+                                fmt("Initializer{seed=%u}: all-zero xorshift state", seed));
+                V160 const base = ref ? (*ref) * s0 : s0;
+                for (unsigned long long off : offsets)
+                {
+                    // scramble the slot first so that a skipped assignment cannot pass by
+                    // leaving the reference state s0 of the previous initialisation in place
+                    real.set(unit(7), 0x5a5a5a5au);
+                    XorwowRngInitializer init;
+                    init.seed = {seed};
+                    init.subsequence = n;
+                    init.offset = off;
+                    real.engine() = init;
+                    transition("op_init");
+                    V160 want = P.apply(big_from(off), base);
+                    uint32_t wwant = uint32_t(w0 + uint32_t(off) * weyl_inc);
+                    R.state(vf::hash_mix(vf::hash_pod(want), off));
+                    if (real.get() != want || real.st().weylstate != wwant)
+                        R.violation(
+                            off <= 5 ? sig_small : std::string("init:offset"), cid,
+                            fmt("Initializer{seed=%u,subseq=%llu,offset=%llu}: real %s/%08x "
+                                "ref %s/%08x",
+                                seed, n, off, real.get().str().c_str(), real.st().weylstate,
+                                want.str().c_str(), wwant));
+                    if (real.get().zero())
+                        R.violation("init:zero-state", cid, "all-zero xorshift state");
+                }
+            }
+        };
+
         // ---- discard / subsequence on single base-4 digits: every stored polynomial ----
         for (int i = 0; i < 32; ++i)
             for (int d = 1; d <= 3; ++d)
@@ -444,50 +497,22 @@ int main(int argc, char** argv)
                         if (real.st().weylstate != 1234u)
                             R.violation("weyl:subseq", cid, "weyl changed by subsequence skip");
                     }
-                    // public path: Initializer{seed, subsequence, offset}; the 64-bit offset runs
-                    // over a lattice that includes values >= 2^32 (a truncation of the offset on its
-                    // way into discard() leaves the Weyl word right and the xorshift state wrong)
-                    static unsigned long long const offsets[]
-                        = {0ull, 5ull, 0xffffffffull, 1ull << 32, (1ull << 32) + 5, 1ull << 63, ~0ull};
-                    for (unsigned seed : {0u, 1u, 12345u, 0xffffffffu})
-                    {
-                        XorwowRngInitializer init0;
-                        init0.seed = {seed};
-                        real.engine() = init0;
-                        V160 s0 = real.get();
-                        uint32_t w0 = real.st().weylstate;
-                        if (s0.zero())
-                            R.violation("init:zero-state", cid,
-                                        fmt("Initializer{seed=%u}: all-zero xorshift state", seed));
-                        V160 const base = ref * s0;
-                        for (unsigned long long off : offsets)
-                        {
-                            XorwowRngInitializer init;
-                            init.seed = {seed};
-                            init.subsequence = n;
-                            init.offset = off;
-                            real.engine() = init;
-                            transition("op_init");
-                            V160 want = P.apply(big_from(off), base);
-                            uint32_t wwant = uint32_t(w0 + uint32_t(off) * weyl_inc);
-                            R.state(vf::hash_mix(vf::hash_pod(want), off));
-                            if (real.get() != want || real.st().weylstate != wwant)
-                                R.violation(
-                                    off <= 5 ? fmt("subseq:init[%d]", i) : std::string("init:offset"),
-                                    cid,
-                                    fmt("Initializer{seed=%u,subseq=%llu,offset=%llu}: real %s/%08x "
-                                        "ref %s/%08x",
-                                        seed, n, off, real.get().str().c_str(),
-                                        real.st().weylstate, want.str().c_str(), wwant));
-                            if (real.get().zero())
-                                R.violation("init:zero-state", cid, "all-zero xorshift state");
-                        }
-                    }
+                    init_lattice(cid, n, &ref, fmt("subseq:init[%d]", i));
                     R.nontrivial(vf::hash_str(cid));
                     R.count("evaluations", probe.size() + 4 * 7);
                     R.end_case();
                 }
             }
+
+        // ---- Initializer{subsequence = 0, offset != 0}: stream 0 keeps its offset ----
+        if (R.want("subseq:n=0"))
+        {
+            R.begin_case("subseq:n=0", 60);
+            init_lattice("subseq:n=0", 0ull, nullptr, "init:subseq0-offset");
+            R.nontrivial(vf::hash_str("subseq:n=0"));
+            R.count("evaluations", 4 * 7);
+            R.end_case();
+        }
 
         // ---- composite counts: pairs of digits, carries, extremes ----
         {
@@ -676,36 +701,75 @@ int main(int argc, char** argv)
                     events.push_back(1000003ull);
                     events.push_back(0xffffffffull);
                     events.push_back((1ull << 40) + 7);
+                    // top of the 64-bit index range: 2^60+3 (index > 2^53, < 2^63 for slots <= 8)
+                    // and the LAST event whose slots all fit below 2^64 (beyond it two events
+                    // share a segment by construction: the disjointness claim ends there);
+                    // slots == 1 would give the invalid id 2^64-1, so the largest valid id is used
+                    // (2^59+3 for 16 slots, where 2^60+3 would itself wrap)
+                    unsigned long long const ev_top = (1ull << (slots < 16 ? 60 : 59)) + 3;
+                    unsigned long long const ev_last = std::min<unsigned __int128>(
+                        (((unsigned __int128)1 << 64) / (unsigned)slots) - 1, ~0ull - 1);
+                    events.push_back(ev_top);
+                    events.push_back(ev_last);
+                    // the StreamId argument must not enter the index: events 0, 2^32-1, 2^60+3
+                    // are reseeded again as streams 1 and 7 (store built for that stream)
+                    CollectionStateStore<RngStateData, MemSpace::host> st1(
+                        rp->host_ref(), StreamId{1}, slots);
+                    CollectionStateStore<RngStateData, MemSpace::host> st7(
+                        rp->host_ref(), StreamId{7}, slots);
+                    size_t nreseed = 0;
                     for (auto ev : events)
                     {
-                        reseed_rng(rp->host_ref(), st.ref(), StreamId{0}, UniqueEventId{ev});
-                        transition("op_reseed");
-                        for (int s = 0; s < slots; ++s)
+                        bool const all_streams = (ev == 0 || ev == 0xffffffffull || ev == ev_top);
+                        for (int stream : {0, 1, 7})
                         {
-                            auto const& xs = st.ref().state[TrackSlotId(s)];
-                            V160 got;
-                            for (int k = 0; k < 5; ++k)
-                                got.w[k] = xs.xorstate[k];
-                            unsigned long long idx = ev * slots + s;
-                            V160 want = P.apply(big_shl(big_from(idx), 67), s0);
-                            R.state(vf::hash_mix(vf::hash_pod(got), idx));
-                            if (got != want || xs.weylstate != w0)
-                                R.violation("reseed:wrong-subsequence", cid,
-                                            fmt("event %llu slot %d/%d: state %s expected subsequence %llu = %s",
-                                                ev, s, slots, got.str().c_str(), idx,
-                                                want.str().c_str()));
-                            if (!indices.insert(idx).second)
-                                R.violation("reseed:overlap", cid,
-                                            fmt("subsequence %llu assigned twice", idx));
-                            if (got.zero())
-                                R.violation("reseed:zero-state", cid, "all-zero xorshift state");
+                            if (stream != 0 && !all_streams)
+                                continue;
+                            auto& store = stream == 0 ? st : stream == 1 ? st1 : st7;
+                            reseed_rng(rp->host_ref(), store.ref(), StreamId(stream),
+                                       UniqueEventId{ev});
+                            transition("op_reseed");
+                            ++nreseed;
+                            for (int s = 0; s < slots; ++s)
+                            {
+                                auto const& xs = store.ref().state[TrackSlotId(s)];
+                                V160 got;
+                                for (int k = 0; k < 5; ++k)
+                                    got.w[k] = xs.xorstate[k];
+                                // 128-bit: a wrap of event*slots+slot must be noticed here, not
+                                // reproduced
+                                unsigned __int128 const idx128
+                                    = (unsigned __int128)ev * (unsigned)slots + (unsigned)s;
+                                if (idx128 >> 64)
+                                    R.harness_error("reseed lattice: index >= 2^64");
+                                unsigned long long idx = (unsigned long long)idx128;
+                                V160 want = P.apply(big_shl(big_from(idx128), 67), s0);
+                                R.state(vf::hash_mix(vf::hash_pod(got),
+                                                     vf::hash_mix(idx, stream)));
+                                if (got != want || xs.weylstate != w0)
+                                    R.violation(
+                                        stream == 0 ? "reseed:wrong-subsequence"
+                                                    : "reseed:stream-dependent",
+                                        cid,
+                                        fmt("event %llu stream %d slot %d/%d: state %s expected "
+                                            "subsequence %llu = %s",
+                                            ev, stream, s, slots, got.str().c_str(), idx,
+                                            want.str().c_str()));
+                                if (stream == 0 && !indices.insert(idx).second)
+                                    R.violation("reseed:overlap", cid,
+                                                fmt("subsequence %llu assigned twice", idx));
+                                if (got.zero())
+                                    R.violation("reseed:zero-state", cid,
+                                                "all-zero xorshift state");
+                            }
                         }
                     }
-                    R.count("evaluations", events.size() * slots);
+                    R.count("evaluations", nreseed * slots);
                     R.nontrivial(vf::hash_str(cid));
                     R.end_case();
                 }
-            // (max index + 1) * 2^67 <= 2^64 * 2^67 = 2^131 < 2^160 - 1: segments of one cycle
+            // (max index + 1) * 2^67 <= 2^64 * 2^67 = 2^131 < 2^160 - 1: segments of one cycle;
+            // the lattice reaches index 2^64-1 (slots | 2^64) resp. the last full event below it
         }
 
         // ---- canon: the engine-specific path generate_canonical<T>(XorwowRngEngine&) ----
